@@ -1320,3 +1320,82 @@ func c18r11(c *RC) {
 			"canMakeCombiningFrame does not certainly report a key column for which frame."+nm+" fails (the condition that records failing types is not taken whenever this check alone fails): Reduce, Reshuffle and Reshard accept a key type that supports only one of hashing and comparison, and the first task that needs the other fails with a nil function call")
 	}
 }
+
+// C17-R10: a reader with a row budget asks its input for no more rows than it
+// may deliver.
+//
+// headReader.Read returns at most h.n more rows.  "Writes only those rows of
+// the destination" requires the frame it hands to its input to be cut to that
+// budget first: trimming the *count* afterwards leaves the rows beyond it
+// overwritten with data the caller was told it did not get.  Decided: every
+// upstream Read in (*headReader).Read is handed a frame variable that, on the
+// way there, was re-sliced to (0, budget) under a guard that is certainly
+// taken when the frame is longer than the budget (evaluated, not matched).
+func c17r10(c *RC) {
+	pr := c.P
+	fn := c.MustFn(".(*headReader).Read")
+	if fn == nil {
+		return
+	}
+	fq := fn.QName()
+	le := newLinEnv(pr, fn)
+	le.defs = map[types.Object]ast.Expr{}
+	norm := func(e ast.Expr) lin { return le.norm(e, 0) }
+	// the budget: the receiver's int field
+	n := 0
+	for _, k := range callsIn(fn.Body) {
+		if !isReaderRead(pr, fn.Pkg, k) || len(k.Args) != 2 {
+			continue
+		}
+		n++
+		id, ok := ast.Unparen(k.Args[1]).(*ast.Ident)
+		if !ok {
+			c.Check(false, fq+"|input-read-is-cut-to-the-budget", pr.Pos(k.Pos()), "the frame handed to the input is not a variable that was cut to the remaining budget")
+			continue
+		}
+		fo := fn.Pkg.Info.Uses[id]
+		cut := false
+		// a top-level `if C { F = F.Slice(0, B) }` that precedes the read
+		for _, st := range fn.Body.List {
+			if st.Pos() > k.Pos() {
+				break
+			}
+			ifs, ok := st.(*ast.IfStmt)
+			if !ok || ifs.Else != nil || len(ifs.Body.List) != 1 {
+				continue
+			}
+			as, ok := ifs.Body.List[0].(*ast.AssignStmt)
+			if !ok || len(as.Lhs) != 1 || len(as.Rhs) != 1 {
+				continue
+			}
+			lid, ok := as.Lhs[0].(*ast.Ident)
+			if !ok || fn.Pkg.Info.Uses[lid] != fo {
+				continue
+			}
+			sl, ok := ast.Unparen(as.Rhs[0]).(*ast.CallExpr)
+			if !ok || fn.Pkg.CalleeName(sl) != "frame.Frame.Slice" || len(sl.Args) != 2 {
+				continue
+			}
+			if se, ok := sl.Fun.(*ast.SelectorExpr); !ok || nospace(se.X) != id.Name {
+				continue
+			}
+			if z, isC := constInt(fn.Pkg, sl.Args[0]); !isC || z != 0 {
+				continue
+			}
+			budget := norm(sl.Args[1])
+			// the budget is a field of the receiver
+			if t, _, single := budget.single(); !single || !strings.HasPrefix(t, "$recv.") {
+				continue
+			}
+			// scenario: the frame is longer than the budget: Len() - B > 0
+			form := lin{le.atom(id) + ".Len()": 1}
+			form.addScaled(budget, -1)
+			if v, known := evalCond3(ifs.Cond, clauseAtom(norm, form, ">", nil)); known && v {
+				cut = true
+			}
+		}
+		c.Check(cut, fq+"|input-read-is-cut-to-the-budget", pr.Pos(k.Pos()),
+			"Head hands its whole destination frame to its input and trims only the returned count: the rows of the destination beyond the rows delivered are overwritten with input rows the caller was told it did not get (a reader must write only the rows it returns)")
+	}
+	c.Floor("input reads in (*headReader).Read", n, 1)
+}
